@@ -7,6 +7,7 @@ import NmVerif.NN.LinearLemmas
 import NmVerif.NN.LinearTensordot
 import NmVerif.NN.NormLemmas
 import NmVerif.NN.BatchNormLemmas
+import NmVerif.NN.AxisLemmas
 /-
   C17 — neural-network routines equal their reference (PyTorch) definitions.
 
@@ -457,6 +458,48 @@ theorem batch_norm_rank2_counterexample :
     (batchNorm (· + ·) (· - ·) (· * ·) (· / ·) id 0 x zero one one zero).map (fun r => r.shape) = some [2, 1, 2]
       ∧ x.shape = [1, 2] := by
   decide
+
+/-! ## pairwise_distance -/
+
+open NmVerif.Reduce in
+/-- **pairwise_distance = ‖a − b + eps‖ over the last axis** (`vector_norm` with `pre x = |x|^ord`, `post y = y^(1/ord)`,
+    both abstract), operands of any ranks that broadcast to `lead ++ [D]`, keepdims either way: the composition exists,
+    has the shape `lead` (resp. `lead ++ [1]`), and the element at `p` (resp. `p ++ [0]`) is
+    `post (Σ_{k < D} pre ((a[p,k] − b[p,k]) + eps))` — a left fold from the first term, `k` increasing, each operand
+    read at its NumPy broadcast position. -/
+theorem pairwise_distance_eq_def {α : Type} (add sub : α → α → α) (pre post : α → α) (eps : α) (a b : Arr α)
+    (lead : Shape) (D : Nat) (keep : Bool) (hpa : Pos a.shape) (hpb : Pos b.shape)
+    (hbr : broadcastShape2 a.shape b.shape = some (lead ++ [D])) :
+    ∃ v, pairwiseDistance add sub pre post eps a b keep = some v ∧ v.shape = (if keep then lead ++ [1] else lead) ∧
+      ∀ p, InShape p lead →
+        v.get (if keep then p ++ [0] else p) =
+          (foldFirst add none ((List.range D).map fun k =>
+            pre (add (sub (a.get (specBroadcastIdx a.shape (p ++ [k]))) (b.get (specBroadcastIdx b.shape (p ++ [k])))) eps))).map post := by
+  have hpr : Pos (lead ++ [D]) := by
+    apply NmVerif.Props.C06.broadcast_pos [a.shape, b.shape] (by simp)
+      (by intro s hs; simp at hs; rcases hs with rfl | rfl <;> assumption) _
+    rw [NmVerif.Props.C06.broadcast_pair]; exact hbr
+  obtain ⟨d, hd1, hd2, hd3⟩ := bin_spec sub (lift a) (lift b) (lead ++ [D]) hpa hpb hbr
+  have hden : Den (un pre (un (fun t => add t eps) d)) (lead ++ [D]) (fun i =>
+      pre (add (sub (a.get (specBroadcastIdx a.shape i)) (b.get (specBroadcastIdx b.shape i))) eps)) := by
+    refine ⟨hd2, fun i hi => ?_⟩
+    show ((d.get i).map _).map pre = _
+    rw [hd3 i hi]
+    rfl
+  obtain ⟨v, hv1, hv2, hv3⟩ := red_last add hden hpr keep
+  refine ⟨un post v, by simp only [pairwiseDistance, hd1, Option.bind_some, vectorNormO, hv1, Option.map_some], hv2, fun p hp => ?_⟩
+  show (v.get _).map post = _
+  rw [hv3 p hp]
+
+/-- non-vacuity: `(2,3)` against `(3)` broadcasts to `[2] ++ [3]`; row 1 of the first operand against the second -/
+example : Pos [2, 3] ∧ Pos [3] ∧ broadcastShape2 [2, 3] [3] = some ([2] ++ [3]) ∧
+    specBroadcastIdx [2, 3] ([1] ++ [2]) = [1, 2] ∧ specBroadcastIdx [3] ([1] ++ [2]) = [2] := by decide
+
+example :
+    let a : Arr Int := ⟨[2, 3], fun d => match d with | [r, c] => (3 * r + c : Nat) | _ => 0⟩
+    let b : Arr Int := ⟨[3], fun _ => 1⟩
+    (pairwiseDistance (· + ·) (· - ·) (fun t => t * t) id 0 a b false).map (fun v => (v.shape, (allIdx v.shape).map v.get))
+      = some ([2], [some ((0-1)*(0-1) + (1-1)*(1-1) + (2-1)*(2-1)), some ((3-1)*(3-1) + (4-1)*(4-1) + (5-1)*(5-1))]) := by decide
 
 /-! ## convolution -/
 
